@@ -7,6 +7,10 @@ type nat =
 | O
 | S of nat
 
+type ('a, 'b) sum =
+| Inl of 'a
+| Inr of 'b
+
 val fst : ('a1 * 'a2) -> 'a1
 
 val snd : ('a1 * 'a2) -> 'a2
@@ -49,6 +53,8 @@ module Nat :
   val ltb : nat -> nat -> bool
 
   val max : nat -> nat -> nat
+
+  val min : nat -> nat -> nat
 
   val even : nat -> bool
 
@@ -116,6 +122,10 @@ module Coq_Pos :
 
   val pow : positive -> positive -> positive
 
+  val div2 : positive -> positive
+
+  val div2_up : positive -> positive
+
   val compare_cont : comparison -> positive -> positive -> comparison
 
   val compare : positive -> positive -> comparison
@@ -129,6 +139,8 @@ module Coq_Pos :
   val coq_lor : positive -> positive -> positive
 
   val coq_land : positive -> positive -> n
+
+  val ldiff : positive -> positive -> n
 
   val coq_lxor : positive -> positive -> n
 
@@ -148,6 +160,8 @@ module N :
   val succ_double : n -> n
 
   val double : n -> n
+
+  val succ_pos : n -> positive
 
   val add : n -> n -> n
 
@@ -178,6 +192,8 @@ module N :
   val coq_lor : n -> n -> n
 
   val coq_land : n -> n -> n
+
+  val ldiff : n -> n -> n
 
   val coq_lxor : n -> n -> n
 
@@ -254,6 +270,10 @@ module Z :
 
   val mul : z -> z -> z
 
+  val pow_pos : z -> positive -> z
+
+  val pow : z -> z -> z
+
   val compare : z -> z -> comparison
 
   val leb : z -> z -> bool
@@ -278,11 +298,45 @@ module Z :
 
   val div_eucl : z -> z -> z * z
 
+  val div : z -> z -> z
+
   val modulo : z -> z -> z
+
+  val quotrem : z -> z -> z * z
+
+  val quot : z -> z -> z
+
+  val rem : z -> z -> z
+
+  val div2 : z -> z
+
+  val shiftl : z -> z -> z
+
+  val shiftr : z -> z -> z
+
+  val coq_lor : z -> z -> z
+
+  val coq_land : z -> z -> z
+
+  val ldiff : z -> z -> z
+
+  val coq_lxor : z -> z -> z
  end
 
 type ascii =
 | Ascii of bool * bool * bool * bool * bool * bool * bool * bool
+
+val zero : ascii
+
+val one : ascii
+
+val shift : bool -> ascii -> ascii
+
+val eqb1 : ascii -> ascii -> bool
+
+val ascii_of_pos : positive -> ascii
+
+val ascii_of_N : n -> ascii
 
 val n_of_digits : bool list -> n
 
@@ -291,6 +345,8 @@ val n_of_ascii : ascii -> n
 type string =
 | EmptyString
 | String of ascii * string
+
+val eqb2 : string -> string -> bool
 
 val list_ascii_of_string : string -> ascii list
 
@@ -1625,6 +1681,249 @@ val md5_serialize : md5_state -> n list
 
 val md5 : n list -> n list
 
+type val0 =
+| VInt of z
+| VBool of bool
+| VBytes0 of bytes
+| VNil
+| VErr
+| VList of val0 list
+| VRec of val0 list
+| VTup of val0 list
+
+type binop =
+| BAdd
+| BSub
+| BMul
+| BDiv
+| BMod
+| BAnd
+| BOr
+| BXor
+| BAndNot
+| BShl
+| BShr
+| BEq
+| BNe
+| BLt
+| BLe
+| BGt
+| BGe
+| BLAnd
+| BLOr
+
+type expr =
+| EInt of z
+| EBool of bool
+| EStr of bytes
+| ENil
+| EErr
+| EVar of nat
+| EBin of binop * expr * expr
+| ENot of expr
+| EWrap of z * bool * expr
+| ELen of expr
+| EIdx of expr * expr
+| ESlice of expr * expr option * expr option
+| EAppend of expr * expr
+| ESnoc of expr * expr
+| ECat of expr * expr
+| EMake of expr
+| EBE of nat * expr
+| EBEnc of nat * expr
+| EMD5 of expr
+| EBytesEq of expr * expr
+| EIndexByte of expr * expr
+| EField of expr * nat
+| ERec of expr list
+| ETup of expr list
+| ECall of string * expr list
+
+type lval =
+| LVar of nat
+| LField of lval * nat
+| LIdx of lval * expr
+
+type stmt =
+| SSkip
+| SSeq of stmt * stmt
+| SAssign of lval * expr
+| SMulti of lval option list * expr
+| SCopy of lval * expr * expr option * expr
+| SIf of expr * stmt * stmt
+| SFor of expr * stmt * stmt
+| SRet of expr
+| SBreak
+| SContinue
+| SPanic
+
+type func = { f_params : nat; f_locals : nat; f_body : stmt }
+
+type translated =
+| Translated of func
+| Refused of string
+
+type ctx = string -> val0 list -> val0 option
+
+val wrap : z -> bool -> z -> z
+
+val as_bytes : val0 -> bytes option
+
+val as_list : val0 -> val0 list option
+
+val set_nth0 : nat -> 'a1 -> 'a1 list -> 'a1 list
+
+val in_range0 : z -> nat -> bool
+
+val val_eq : val0 -> val0 -> bool option
+
+val arith : binop -> z -> z -> val0 option
+
+val index_byte : bytes -> n -> z -> z
+
+val slice_of : 'a1 list -> z -> z -> 'a1 list option
+
+val eval : ctx -> val0 list -> expr -> val0 option
+
+val lupdate :
+  ctx -> val0 list -> lval -> (val0 -> val0 option) -> val0 list option
+
+val copy_into : bytes -> z -> z -> bytes -> bytes option
+
+val assign_all :
+  ctx -> val0 list -> lval option list -> val0 list -> val0 list option
+
+type out =
+| ONorm of val0 list
+| ORet of val0
+| OBrk of val0 list
+| OCont of val0 list
+| OFail
+| OFuel
+
+val loop :
+  (val0 list -> val0 option) -> (val0 list -> out) -> (val0 list -> out) ->
+  nat -> val0 list -> out
+
+val exec : ctx -> nat -> stmt -> val0 list -> out
+
+val run : ctx -> nat -> func -> val0 list -> val0 option option
+
+val lookup_fn : (string * translated) list -> string -> func option
+
+val ctx_of : ctx -> (string * translated) list -> nat -> nat -> ctx
+
+val src_Integer : translated
+
+val src_NewInteger : translated
+
+val src_String : translated
+
+val src_NewString : translated
+
+val src_Bytes : translated
+
+val src_NewBytes : translated
+
+val src_IPAddr : translated
+
+val src_NewIPAddr : translated
+
+val src_IPv6Addr : translated
+
+val src_NewIPv6Addr : translated
+
+val src_IFID : translated
+
+val src_NewIFID : translated
+
+val src_UserPassword : translated
+
+val src_NewUserPassword : translated
+
+val src_Date : translated
+
+val src_NewDate : translated
+
+val src_VendorSpecific : translated
+
+val src_NewVendorSpecific : translated
+
+val src_Integer64 : translated
+
+val src_NewInteger64 : translated
+
+val src_Short : translated
+
+val src_NewShort : translated
+
+val src_TLV : translated
+
+val src_NewTLV : translated
+
+val src_NewTunnelPassword : translated
+
+val src_TunnelPassword : translated
+
+val src_NewIPv6Prefix : translated
+
+val src_IPv6Prefix : translated
+
+val src_ParseAttributes : translated
+
+val src_Attributes_Add : translated
+
+val src_Attributes_Del : translated
+
+val src_Attributes_Get : translated
+
+val src_Attributes_Lookup : translated
+
+val src_Attributes_Set : translated
+
+val src_Attributes_encodeTo : translated
+
+val src_AttributesEncodedLen : translated
+
+val src_New : translated
+
+val src_Parse : translated
+
+val src_Packet_Response : translated
+
+val src_Packet_Encode : translated
+
+val src_Packet_MarshalBinary : translated
+
+val src_IsAuthenticResponse : translated
+
+val src_IsAuthenticRequest : translated
+
+val src_table : (string * translated) list
+
+val prims : ctx
+
+val src_depth : nat
+
+val src_ctx : nat -> ctx
+
+val src_run : string -> nat -> val0 list -> val0 option option
+
+val size_val : val0 -> nat
+
+val take_val :
+  nat -> z list -> bytes list -> (val0 * (z list * bytes list)) option
+
+val take_vals : nat -> z list -> bytes list -> val0 list option
+
+type rtok = (z, bytes) sum
+
+val t_val : val0 -> rtok list
+
+val b2s : bytes -> string
+
+val dispatch_src_raw : bytes -> bytes list -> z list -> rtok list option
+
 val sha1_mask32 : n
 
 val sha1_add32 : n -> n -> n
@@ -1976,5 +2275,7 @@ val zb : bool -> z
 val t_gdecl : gdecl -> tok list
 
 val dispatch_gen : bytes -> bytes list -> z list -> tok list option
+
+val dispatch_src : bytes -> bytes list -> z list -> tok list option
 
 val dispatch : bytes -> bytes list -> z list -> tok list
